@@ -52,6 +52,9 @@ def check(ctx):
   c03.r2(ctx)
   ctx.rule('C08.R4', 'shared with C08: a failed transport open shuts down with the fault signal (the resurrector fails fast and retries on it)')
   c08.failed_open_rules(ctx)
+  ctx.rule('C08.R4', 'shared with C08: the shutdown of a multiplexed transport runs to its end without blocking (it is entered from the transport loops themselves) and raises the fault signal: '
+                     'the resurrector marks the endpoint down, fails fast and starts retrying only on that signal')
+  c08.r4(ctx)
   balancer_close(ctx)
   from . import c07
   c07.dead_release_keeps_subscription(ctx, 'C09.R5')
@@ -59,6 +62,10 @@ def check(ctx):
   ctx.rule('C04.R4', 'shared with C04: a member taken out of the balancer has its channel (the resurrector of a failed endpoint included) closed, at once when it is idle or marked down '
                      '(a down member is penalised to load >= 0; exactly 0 when it was idle): an orphaned resurrector keeps reconnecting after the client is closed')
   c04.r4(ctx)
+  from . import c06
+  ctx.rule('C06.R2', 'shared with C06: the aperture gives a member back only while more than min_size HEALTHY members are active (contraction prefers closed members: '
+                     'counting all members instead evicts the endpoint that is down, closing its resurrector -- it is never retried and never used again once reachable)')
+  c06.r2(ctx)
 
 
 def r1(ctx):
